@@ -540,3 +540,62 @@ func checkDrainStart(w *World, r *Report, rule string) {
 	}
 	r.Check(ok, rule, key, what, w.pos(sl.Pos()), detail)
 }
+
+// family: fn plus the unexported same-package functions it reaches through static calls (depth <= 3).
+// Rules that look for a construct "in function f" accept it in f's family, so that splitting f into
+// private helpers does not hide the construct.
+func (w *World) family(fn *ssa.Function) []*ssa.Function {
+	if fn == nil {
+		return nil
+	}
+	seen := map[*ssa.Function]bool{fn: true}
+	out := []*ssa.Function{fn}
+	pkg := fnPkgPath(fn)
+	var walk func(f *ssa.Function, d int)
+	walk = func(f *ssa.Function, d int) {
+		if d > 3 {
+			return
+		}
+		for _, b := range f.Blocks {
+			for _, in := range b.Instrs {
+				c := callOf(in)
+				if c == nil {
+					if mc, ok := in.(*ssa.MakeClosure); ok {
+						if cf, ok := mc.Fn.(*ssa.Function); ok && cf.Blocks != nil && !seen[cf] && cf.Synthetic == "" {
+							seen[cf] = true
+							out = append(out, cf)
+							walk(cf, d+1)
+						}
+					}
+					continue
+				}
+				callee := c.StaticCallee()
+				if callee == nil || callee.Blocks == nil || seen[callee] || fnPkgPath(callee) != pkg || callee.Synthetic != "" {
+					continue
+				}
+				if callee.Object() != nil && callee.Object().Exported() {
+					continue
+				}
+				seen[callee] = true
+				out = append(out, callee)
+				walk(callee, d+1)
+			}
+		}
+	}
+	walk(fn, 0)
+	return out
+}
+
+// holder: the member of fn's family for which pred holds (exactly one), or nil.
+func (w *World) holder(fn *ssa.Function, pred func(f *ssa.Function) bool) *ssa.Function {
+	var found *ssa.Function
+	for _, f := range w.family(fn) {
+		if pred(f) {
+			if found != nil {
+				return nil
+			}
+			found = f
+		}
+	}
+	return found
+}
